@@ -385,6 +385,15 @@ class AddrInterp:
             if not isinstance(fields, DictVal) or not isinstance(launch, DictVal):
                 raise AnalysisError(f"{w}: AcceleratorOp field arguments are not dictionaries")
             return AccOpVal(fields, launch, self.form(barrier, w), w, allargs)
+        if name == "max" and len(args) == 2 and isinstance(fn, ast.Name) and all(isinstance(a_, Form) for a_ in args):
+            cs = [a_ for a_ in args if a_.is_const()]
+            vs = [a_ for a_ in args if not a_.is_const()]
+            if len(cs) == 1 and len(vs) == 1 and vs[0].const == 0 and len(vs[0].coef) == 1 and list(vs[0].coef.values()) == [1]:
+                try:
+                    return self.tab.max_const(next(iter(vs[0].coef)), cs[0].const)
+                except (ValueError, KeyError):
+                    pass
+            return self.form(Opaque(ast.unparse(e)), w)
         if name == "ceil" and len(args) == 1:
             a = args[0]
             if isinstance(a, DivVal):
